@@ -81,3 +81,83 @@ def range_(e):
 
 def data(e):
     return Data(e['value'])
+
+
+# ---------------------------------------------------------------- declarations: qualified by the enclosing namespaces
+from dznpy.ast import (Enum, SubInt, Extern, Foreign, Component, System, Interface, Types, Namespace, Root, Comment, Import,
+                       Filename)
+from dznpy.scoping import NamespaceTree
+from specs.scoping import tree_fqn
+
+
+def qualified(parent_ns, name):
+    """the fully qualified name: scope names of the enclosing namespaces, outermost first, then the own name"""
+    return NamespaceIds(tree_fqn(parent_ns) + name.value.items)
+
+
+def enum(e, parent_ns):
+    name = scope_name(e['name'])
+    return Enum(qualified(parent_ns, name), parent_ns, name, fields(e['fields']))
+
+
+def subint(e, parent_ns):
+    name = scope_name(e['name'])
+    return SubInt(qualified(parent_ns, name), parent_ns, name, range_(e['range']))
+
+
+def extern(e, parent_ns):
+    name = scope_name(e['name'])
+    return Extern(qualified(parent_ns, name), parent_ns, name, data(e['value']))
+
+
+def foreign(e, parent_ns):
+    name = scope_name(e['name'])
+    return Foreign(qualified(parent_ns, name), parent_ns, name, ports(e['ports']))
+
+
+def component(e, parent_ns):
+    name = scope_name(e['name'])
+    return Component(qualified(parent_ns, name), parent_ns, name, ports(e['ports']))
+
+
+def system(e, parent_ns):
+    name = scope_name(e['name'])
+    return System(qualified(parent_ns, name), parent_ns, name, ports(e['ports']), instances(e['instances']),
+                  bindings(e['bindings']))
+
+
+def types(e, parent_ns):
+    """enums and subints declared inside an interface, in source order; other classes are skipped"""
+    res = []
+    for x in e['elements']:
+        if x['<class>'] == 'enum':
+            res.append(enum(x, parent_ns))
+        elif x['<class>'] == 'subint':
+            res.append(subint(x, parent_ns))
+    return Types(res)
+
+
+def interface(e, parent_ns):
+    name = scope_name(e['name'])
+    trail = NamespaceTree(parent_ns, name.value)
+    return Interface(qualified(parent_ns, name), parent_ns, trail, name, types(e['types'], trail), events(e['events']))
+
+
+def namespace(e):
+    return Namespace(scope_name(e['name']), e['elements'])
+
+
+def root(e):
+    return Root(Comment(e['comment']['string']) if 'comment' in e else None, e['elements'], e['working-directory'])
+
+
+def comment(e):
+    return Comment(e['string'])
+
+
+def import_(e):
+    return Import(e['name'])
+
+
+def filename(e):
+    return Filename(e['name'])
